@@ -12,6 +12,9 @@ import (
 // key: property/part
 var replayers = map[string]func(v *mc.Violation) (msg string){}
 
+// bodies of Explore-based parts, for replaying a recorded choice sequence.
+var bodies = map[string]mc.Body{}
+
 func replay(path string) int {
 	b, err := os.ReadFile(path)
 	if err != nil {
@@ -25,6 +28,18 @@ func replay(path string) int {
 	if err := json.Unmarshal(b, &f); err != nil {
 		fmt.Fprintln(os.Stderr, "HARNESS-ERROR:", err)
 		return 3
+	}
+	if body, ok := bodies[f.Property+"/"+f.Violation.Part]; ok {
+		out, hist := mc.Replay(body, f.Violation.Choices)
+		for _, h := range hist {
+			fmt.Println("  ", h)
+		}
+		if out.Violation != "" {
+			fmt.Printf("VIOLATION property=%s replay=%s :: %s\n", f.Property, path, out.Violation)
+			return 1
+		}
+		fmt.Println("replay: property held on this case")
+		return 0
 	}
 	rp, ok := replayers[f.Property+"/"+f.Violation.Part]
 	if !ok {
